@@ -455,7 +455,7 @@ pub fn run(args: &Args) {
     let programs = c22::corpus(Tier::Quick);
     let typed_stride = tier.pick(6, 1);
     let policies = c30::corpus(Tier::Quick);
-    let cmd_stride = tier.pick(16, 2);
+    let cmd_stride = tier.pick(16, 1);
     let mut jobs: Vec<Job<'_>> = Vec::new();
     let refs: Vec<&Program> = programs.iter().collect();
     for (i, chunk) in refs.chunks(c22::BATCH).enumerate() {
